@@ -147,10 +147,10 @@ theorem udpStep_not_effective (s : UdpSt) (u : UdpUnit) (h : u.effective = false
                     simp [UdpUnit.effective, Nat.le_of_not_lt c0, hex, hdi, c2, c3, c4, c5, c7] at h
                   · have c7' : validNewSession pOpenReq u.md.sid = false := by
                       rw [← c6]; simpa using c7
-                    simp [c2, c3, c4, hex, c6, c7']
+                    simp [c2, c3, c4, c6, c7']
                 · exfalso
                   simp [UdpUnit.effective, Nat.le_of_not_lt c0, hex, hdi, c2, c3, c4, c5, c6] at h
-              · simp [c1, c2, c3, c4, hex, c5]
+              · simp [c2, c3, c4, c5]
           · simp [c1, c2, c3, c4]
         · simp [c1, c2, c3]
 
